@@ -77,6 +77,8 @@ def main():
         if not getattr(t, "EXHAUSTIVE", False):
             import random
             random.Random(seed).shuffle(all_cases)      # a budget-limited run samples the scope evenly
+        if hasattr(t, "priority"):
+            all_cases.sort(key=lambda c: t.priority(c[1]))     # stable: one representative of every feature first, then the sampled rest
         for cid, inp in all_cases:
             if time.time() - t0 > budget:
                 exhausted = False
